@@ -46,7 +46,7 @@ ResultClause(rd, res, G, segs) ==
   ELSE ""
 AfterResult(rd, res) == [rd EXCEPT !.st = IF res = "ok" THEN "done" ELSE "failed", !.res = res]
 
-Resolved(rd) == rd.st \in {"done", "failed"}
+Resolved(rd) == rd.st \in {"done", "failed", "stopped"}
 
 \* the node after a read ended with res: under the code's rule a decode / ciphertext-hash failure leaves
 \* _active_segment set, and every later get_segment on this node waits for ever
